@@ -1807,6 +1807,276 @@ fn run_cell(ctx: &Ctx, force: Force, seed: u64, case: u64, rep: &mut Report, sol
     stuck_out
 }
 
+
+// ================================================================================================
+// Deterministic reproduction: sozu's H2 client side loses sync on valid frames from an h2c backend
+// (`vh C14 --opt repro=zero`). Scenario A: HEADERS + empty DATA(END_STREAM) + WINDOW_UPDATE in one
+// write; scenario B: a body sent as many DATA frames of 1/9/100 octets written in 4-octet segments.
+// ================================================================================================
+
+fn repro_zero(rep: &mut Report) {
+    let ip = lab::fresh_ip();
+    let front = lab::sa(ip, 8443);
+    let back = lab::sa(ip, 9000);
+    let goaways: Arc<Mutex<Vec<String>>> = Arc::new(Mutex::new(Vec::new()));
+    let g2 = goaways.clone();
+    let backend = BackendServer::start(back, IoProgram::fast(), move |s, conn| {
+        let mut c = H2Conn::new(s, Role::Server);
+        c.auto_ack = true;
+        c.replenish = Replenish::Immediately;
+        c.read_timeout = Duration::from_secs(5);
+        if c.handshake_server(&[]).is_err() {
+            return;
+        }
+        let mut uploads = std::collections::BTreeSet::new();
+        loop {
+            match c.poll(Duration::from_secs(10)) {
+                Ok(Some(Event::Headers { stream, end_stream: false, .. })) => {
+                    uploads.insert(stream);
+                }
+                Ok(Some(Event::Data { stream, end_stream: true, .. })) if uploads.contains(&stream) => {
+                    let block = c.enc.encode(&h2::response_headers(200, &[]));
+                    if c.send_frames(&[Frame::headers(stream, &block, true, true)]).is_err() {
+                        break;
+                    }
+                }
+                Ok(Some(Event::Headers { stream, headers, end_stream: true })) => {
+                    let path = h2::header_str(&headers, ":path").unwrap_or_default();
+                    let block = c.enc.encode(&h2::response_headers(200, &[]));
+                    let r = if path.starts_with("/a") {
+                        c.io_prog.write_seg = 5;
+                        c.io_prog.write_pause_us = 150;
+                        let r = c.send_frames(&[
+                            Frame::headers(stream, &block, false, true),
+                            Frame::data(stream, &[], true, None),
+                            Frame::window_update(stream, 512),
+                        ]);
+                        c.io_prog.write_seg = 0;
+                        c.io_prog.write_pause_us = 0;
+                        r
+                    } else {
+                        // scenario B: 3000 octets in DATA frames of 1, 9, 100 octets, 4-octet TCP segments
+                        let body = keystream(7, 0, 3000);
+                        let mut frames = vec![Frame::headers(stream, &block, false, true)];
+                        let mut off = 0;
+                        let mut k = 0;
+                        while off < body.len() {
+                            let n = [1usize, 9, 100][k % 3].min(body.len() - off);
+                            frames.push(Frame::data(stream, &body[off..off + n], off + n == body.len(), None));
+                            off += n;
+                            k += 1;
+                        }
+                        c.io_prog.write_seg = 4;
+                        c.io_prog.write_pause_us = 150;
+                        let r = c.send_frames(&frames);
+                        c.io_prog.write_seg = 0;
+                        c.io_prog.write_pause_us = 0;
+                        r
+                    };
+                    if r.is_err() {
+                        break;
+                    }
+                }
+                Ok(Some(Event::GoAway { last, code, debug })) => {
+                    g2.lock().unwrap().push(format!("backend conn {conn}: GOAWAY from sozu code {code} last {last} {:?}; last frames {:?}", String::from_utf8_lossy(&debug), c.trace_tail(8)));
+                }
+                Ok(Some(Event::Closed)) | Ok(None) | Err(_) => break,
+                Ok(Some(_)) => {}
+            }
+        }
+    });
+    let Ok(mut backend) = backend else {
+        rep.broken("repro: backend bind failed");
+        return;
+    };
+    let mut w = Worker::start(WorkerOpts { knobs: vec![("back_sndbuf".to_owned(), 4096)], ..WorkerOpts::default() });
+    let cert = std::fs::read_to_string("/repo/lib/assets/certificate.pem").unwrap_or_default();
+    let key = std::fs::read_to_string("/repo/lib/assets/key.pem").unwrap_or_default();
+    let ok = w.add_https_listener(front, |b| {
+        b.h2_max_glitch_count = Some(1_000_000);
+    }) && w.add_cluster(Cluster { cluster_id: "c".into(), http2: Some(true), ..Default::default() })
+        && w.add_https_frontend(Worker::http_frontend("c", front, HOST, "/"))
+        && w.add_backend("c", "b0", back)
+        && w.add_certificate(front, &cert, vec![], &key, vec![HOST.into()]);
+    if !ok {
+        rep.broken("repro: configuration refused");
+        return;
+    }
+    for (scenario, path, expect_len) in [("A_empty_data_then_window_update", "/a", 0usize), ("B_small_data_frames", "/b", 3000)] {
+        let mut failures = Vec::new();
+        let mut good = 0u64;
+        let tcp = peers::connect(front, None, &IoProgram::fast(), Duration::from_secs(3));
+        let Ok(tcp) = tcp else { continue };
+        let Ok((t, _)) = tls::TlsClient::handshake(tcp, HOST, tls::client_config(&["h2"]), Duration::from_secs(5)) else { continue };
+        let mut c = H2Conn::new(t, Role::Client);
+        c.auto_ack = true;
+        // no per-frame WINDOW_UPDATE from the client (it would trip sozu's glitch counter on closed
+        // streams): one big connection grant, 3000-octet bodies fit the default stream window
+        c.replenish = Replenish::Never;
+        let _ = c.handshake_client(&[(h2::SET_ENABLE_PUSH, 0)]);
+        let _ = c.send_window_update(0, 1 << 24);
+        'req: for i in 0..12 {
+            let sid = c.next_stream_id();
+            if c.send_headers(sid, &h2::request_headers("GET", "https", HOST, &format!("{path}/{i}"), &[]), true).is_err() {
+                failures.push(format!("request {i}: cannot send"));
+                break;
+            }
+            let mut status = None;
+            let mut got = 0usize;
+            let deadline = Instant::now() + Duration::from_secs(5);
+            loop {
+                match c.poll(Duration::from_millis(200)) {
+                    Ok(Some(Event::Headers { stream, headers, end_stream })) if stream == sid => {
+                        status = h2::header_str(&headers, ":status");
+                        if end_stream {
+                            break;
+                        }
+                    }
+                    Ok(Some(Event::Data { stream, data, end_stream, .. })) if stream == sid => {
+                        if keystream_mismatch(7, got as u64, &data).is_some() {
+                            failures.push(format!("request {i}: body differs at {got}"));
+                        }
+                        got += data.len();
+                        if end_stream {
+                            break;
+                        }
+                    }
+                    Ok(Some(Event::RstStream { stream, code })) if stream == sid => {
+                        failures.push(format!("request {i}: RST_STREAM code {code} (status {status:?}, {got} octets)"));
+                        continue 'req;
+                    }
+                    Ok(Some(Event::Closed)) | Err(_) => {
+                        failures.push(format!("request {i}: connection closed"));
+                        break 'req;
+                    }
+                    _ => {}
+                }
+                if Instant::now() > deadline {
+                    failures.push(format!("request {i}: no complete answer in 5 s (status {status:?}, {got} octets)"));
+                    continue 'req;
+                }
+            }
+            if status.as_deref() == Some("200") && got == expect_len {
+                good += 1;
+            } else {
+                failures.push(format!("request {i}: status {status:?}, {got}/{expect_len} octets"));
+            }
+        }
+        rep.obs(&format!("repro.{scenario}.ok"), good);
+        rep.obs(&format!("repro.{scenario}.failed"), failures.len() as u64);
+        rep.sample(json!({"scenario": scenario, "ok": good, "failures": failures.iter().take(5).collect::<Vec<_>>()}));
+        rep.case(crate::common::rng::fnv1a(scenario.as_bytes()), true);
+    }
+    // scenario C: the same small-frame download while a 1 MB upload keeps sozu's writes towards the
+    // backend blocked half-way through DATA frames (back_sndbuf 4096, backend busy writing)
+    {
+        let mut failures = Vec::new();
+        let mut good = 0u64;
+        for round in 0..6 {
+            let Ok(tcp) = peers::connect(front, None, &IoProgram::fast(), Duration::from_secs(3)) else { continue };
+            let Ok((t, _)) = tls::TlsClient::handshake(tcp, HOST, tls::client_config(&["h2"]), Duration::from_secs(5)) else { continue };
+            let mut c = H2Conn::new(t, Role::Client);
+            c.auto_ack = true;
+            c.replenish = Replenish::Never;
+            let _ = c.handshake_client(&[(h2::SET_ENABLE_PUSH, 0)]);
+            let _ = c.send_window_update(0, 1 << 24);
+            let up = c.next_stream_id();
+            let _ = c.send_headers(up, &h2::request_headers("POST", "https", HOST, "/u", &[]), false);
+            let body = keystream(9, 0, 1 << 20);
+            let mut up_off = 0usize;
+            let mut downs: BTreeMap<u32, (Option<String>, usize, bool)> = BTreeMap::new();
+            let mut up_done = false;
+            let mut opened = 0;
+            let deadline = Instant::now() + Duration::from_secs(20);
+            let mut dead = None;
+            while Instant::now() < deadline {
+                if up_off < body.len() {
+                    let n = (body.len() - up_off).min(16_384);
+                    match c.send_data_avail(up, &body[up_off..up_off + n], up_off + n == body.len(), None) {
+                        Ok(k) => up_off += k,
+                        Err(e) => {
+                            dead = Some(format!("upload: {e}"));
+                            break;
+                        }
+                    }
+                }
+                if opened < 8 && downs.values().all(|d| d.2) {
+                    let sid = c.next_stream_id();
+                    let _ = c.send_headers(sid, &h2::request_headers("GET", "https", HOST, &format!("/b/{round}/{opened}"), &[]), true);
+                    downs.insert(sid, (None, 0, false));
+                    opened += 1;
+                }
+                match c.poll(Duration::from_millis(2)) {
+                    Ok(Some(Event::Headers { stream, headers, end_stream })) => {
+                        if stream == up {
+                            up_done = true;
+                        } else if let Some(d) = downs.get_mut(&stream) {
+                            d.0 = h2::header_str(&headers, ":status");
+                            d.2 |= end_stream;
+                        }
+                    }
+                    Ok(Some(Event::Data { stream, data, end_stream, .. })) => {
+                        if let Some(d) = downs.get_mut(&stream) {
+                            if keystream_mismatch(7, d.1 as u64, &data).is_some() {
+                                failures.push(format!("round {round}: download stream {stream} differs at {}", d.1));
+                            }
+                            d.1 += data.len();
+                            d.2 |= end_stream;
+                        }
+                    }
+                    Ok(Some(Event::RstStream { stream, code })) => {
+                        failures.push(format!("round {round}: RST_STREAM on stream {stream} code {code}"));
+                        if let Some(d) = downs.get_mut(&stream) {
+                            d.2 = true;
+                        }
+                        if stream == up {
+                            up_done = true;
+                            up_off = body.len();
+                        }
+                    }
+                    Ok(Some(Event::GoAway { code, .. })) if code != 0 => {
+                        dead = Some(format!("GOAWAY code {code}"));
+                        break;
+                    }
+                    Ok(Some(Event::Closed)) | Err(_) => {
+                        dead = Some("connection closed".to_owned());
+                        break;
+                    }
+                    _ => {}
+                }
+                if up_done && opened == 8 && downs.values().all(|d| d.2) {
+                    break;
+                }
+            }
+            if let Some(d) = dead {
+                failures.push(format!("round {round}: {d}"));
+            }
+            for (sid, d) in &downs {
+                if d.0.as_deref() == Some("200") && d.1 == 3000 && d.2 {
+                    good += 1;
+                } else {
+                    failures.push(format!("round {round}: download stream {sid}: status {:?}, {}/3000 octets, ended {}", d.0, d.1, d.2));
+                }
+            }
+            if !up_done {
+                failures.push(format!("round {round}: upload not answered ({up_off} octets sent)"));
+            }
+        }
+        rep.obs("repro.C_small_frames_during_blocked_upload.ok", good);
+        rep.obs("repro.C_small_frames_during_blocked_upload.failed", failures.len() as u64);
+        rep.sample(json!({"scenario": "C_small_frames_during_blocked_upload", "ok": good, "failures": failures.iter().take(8).collect::<Vec<_>>()}));
+        rep.case(3, true);
+    }
+    std::thread::sleep(Duration::from_millis(100));
+    let g = goaways.lock().unwrap();
+    rep.obs("repro.goaway_from_sozu_to_backend", g.len() as u64);
+    rep.sample(json!({"goaways_seen_by_backend": g.iter().take(4).collect::<Vec<_>>()}));
+    drop(g);
+    let panics = w.stop();
+    backend.stop();
+    rep.obs("repro.worker_panics", panics.len() as u64);
+}
+
 pub fn run(ctx: &Ctx) -> Report {
     let mut rep = Report::new(
         "exploration",
@@ -1817,6 +2087,10 @@ pub fn run(ctx: &Ctx) -> Report {
     rep.assume("a stalled or aborted transfer is a violation only when it happens again in an isolated re-run of the same cell; at most 3 (thorough: 20) cells are re-run, further first sightings of a class confirmed that way are counted, not judged");
     rep.assume("transfers answered with a non-200 status, and transfers towards a backend that advertises MAX_CONCURRENT_STREAMS=0, are exempt from the progress oracle");
     lab::raise_fd_limit();
+    if ctx.opt("repro") == Some("zero") {
+        repro_zero(&mut rep);
+        return rep;
+    }
     if ctx.opt("selftest").is_some() {
         match h2::selftest() {
             Ok(()) => rep.obs("selftest_ok", 1),
